@@ -81,7 +81,7 @@ template <class C> UriObs observe(const typename Api<C>::Uri &u, const C *in_f =
     if (u.hostData.ip6) { o.hostbits |= 2; o.ip.assign((const char *)u.hostData.ip6->data, 16); }
     if (o.ipfuture.kind != 0) o.hostbits |= 4;
     const typename Api<C>::Seg *last = 0; int guard = 0;
-    for (const typename Api<C>::Seg *s = u.pathHead; s && guard < 100000; s = s->next, guard++) { o.segs.push_back(observe_range<C>(s->text, in_f, in_l)); last = s; }
+    for (const typename Api<C>::Seg *s = u.pathHead; s && guard < 50000000; s = s->next, guard++) { o.segs.push_back(observe_range<C>(s->text, in_f, in_l)); last = s; }
     o.tail_ok = (u.pathTail == last);
     o.head_tail_consistent = ((u.pathHead == 0) == (u.pathTail == 0));
     o.raw_abs = u.absolutePath; o.raw_owner = u.owner; o.abs = u.absolutePath != 0; o.owner = u.owner != 0;
